@@ -84,3 +84,17 @@ func New(nic *packet.NICInfo) (*packet.Session, *RecConn) {
 	}
 	return s, conn
 }
+
+// NewWith returns a session over a recording connection with explicit deadlines
+// (all three zero = the library defaults).
+func NewWith(nic *packet.NICInfo, probe, offline, purge time.Duration) (*packet.Session, *RecConn, error) {
+	if nic == nil {
+		nic = DefaultNIC()
+	}
+	conn := NewRecConn()
+	s, err := packet.Config{Conn: conn, NICInfo: nic, ProbeDeadline: probe, OfflineDeadline: offline, PurgeDeadline: purge}.NewSession("")
+	if err != nil {
+		return nil, nil, err
+	}
+	return s, conn, nil
+}
